@@ -65,6 +65,16 @@ RefKey(prop, eco, cs) == CASE prop = "C10" -> DKey(cs) [] prop = "C08" -> SvPars
 RefScope(prop, eco, cs) == CASE prop = "C10" -> DInScope(cs) [] prop = "C08" -> SvInScope(eco, cs) [] prop = "C09" -> PInScope(cs) [] prop = "C13" -> GInScope(cs) [] prop = "C14" -> ApkInScope(cs) [] prop = "C11" -> RInScope(cs) [] prop = "C12" -> MvInScope(cs)
 RefCmpKey(prop, x, y) == CASE prop = "C10" -> DCmpKey(x, y) [] prop = "C08" -> SvCmpKey(x, y) [] prop = "C09" -> PCmpKey(x, y) [] prop = "C13" -> GCmpKey(x, y) [] prop = "C14" -> ApkCmpKey(x, y) [] prop = "C11" -> RCmpKey(x, y) [] prop = "C12" -> MvCmpKey(x, y)
 
+\* Where the property's quantifier is "all pairs over <a grammar>" (not "all pairs the ecosystem accepts"), a text of that
+\* grammar which the parser rejects takes every pair it belongs to out of the order: C10 (dpkg-valid strings), C11 (a
+\* non-empty version part), C12 (the conventional shapes), C14 (the well-formed grammar, every number below 10^9).
+\* C08, C09 and C13 are stated over what the ecosystem accepts / over a looser description and claim nothing here.
+AllRunsShort(cs) == \A i \in 1..Len(cs) : IsDigit(cs[i]) =>
+                      \E j \in i..(IF i + 9 <= Len(cs) THEN i + 9 ELSE Len(cs) + 1) : j > Len(cs) \/ ~IsDigit(cs[j])
+RefMustAccept(prop, eco, cs) ==
+  CASE prop = "C10" -> DInScope(cs) [] prop = "C11" -> RInScope(cs) [] prop = "C12" -> MvInScope(cs)
+    [] prop = "C14" -> ApkInScope(cs) /\ AllRunsShort(cs) [] OTHER -> FALSE
+
 MatrixRef(ev) ==
   LET n   == ev.n
       M   == ev.m
@@ -78,9 +88,15 @@ MatrixRef(ev) ==
       \* 2 = the reference leaves the pair unclaimed (only C12 has such pairs)
       unclaimed == IF Prop \in {"C12", "C14"} THEN Cardinality({p \in I \X I : W(p) = 2}) ELSE 0
       bad == {p \in I \X I : LET w == W(p) IN w # 2 /\ w # M[p[1]][p[2]]}
-  IN IF PrintT(<<"INFO", ToJson([judged |-> Cardinality(I) * Cardinality(I) - unclaimed, inscope |-> Cardinality(I)])>>) THEN
+      \* texts the real parser rejected although the reference grammar of the property holds them in scope
+      rejIn == {i \in 1..Len(ev.rejtexts) : RefScope(Prop, ev.eco, S2C(ev.rejtexts[i]))}
+      rejMust == {i \in 1..Len(ev.rejtexts) : RefMustAccept(Prop, ev.eco, S2C(ev.rejtexts[i]))}
+  IN IF PrintT(<<"INFO", ToJson([judged |-> Cardinality(I) * Cardinality(I) - unclaimed, inscope |-> Cardinality(I),
+                                 rejectedInScope |-> [i \in 1..Cardinality(rejIn) |-> ev.rejtexts[SetToSeq(rejIn)[i]]]])>>) THEN
      {[prop |-> Prop, eco |-> ev.eco, why |-> "ref", a |-> ev.texts[p[1]], b |-> ev.texts[p[2]],
        got |-> M[p[1]][p[2]], want |-> W(p), model |-> Mdl(p), known |-> ""] : p \in bad}
+     \cup {[prop |-> Prop, eco |-> ev.eco, why |-> "in-scope-rejected", a |-> ev.rejtexts[i], b |-> "", got |-> 2, want |-> 2, model |-> 2,
+             known |-> ""] : i \in rejMust}
      ELSE {}
 
 (* Spec audit: the reference operator against answers of an executable         *)
